@@ -598,7 +598,7 @@ class C13(PropertyCheck):
         "the pylops base class is replaced by a three-line stand-in (common.load_autoarray)",
     ]
     # loop ties (DESIGN §12): regenerated from the source on every run, tie theorems proved for all sizes
-    loop_tie_modules = ["LoopsDFT"]
+    loop_tie_modules = ["LoopsDFT", "LoopsDFT2"]
     modelled_functions = [
         "autoarray/operators/transformer_util.py:preload_real_transforms",
         "autoarray/operators/transformer_util.py:preload_imag_transforms",
